@@ -7,6 +7,7 @@ import (
 	"bufio"
 	"encoding/json"
 	"fmt"
+	"github.com/go-openapi/swag"
 	"math/rand"
 	"os"
 	"path/filepath"
@@ -41,7 +42,7 @@ type mcRun struct {
 
 var lastMC = map[string]*mcRun{}
 
-var rePlaceholder = regexp.MustCompile(`^(N|P|C)_[0-9a-z]+$`)
+var rePlaceholder = regexp.MustCompile(`^(N|P|C|G)_[0-9a-z]+$`)
 
 // runMC runs an MC module in its own scratch directory and returns the result with the exported JSON lines.
 func runMC(module string, consts map[string]string, timeout time.Duration, workers int) (*mcRun, []string, error) {
@@ -148,7 +149,8 @@ func bindPlaceholders(g *Gen, docs map[string]*Node) {
 		}
 	}
 	// C_i is the case variant of N_i: bind after the N_ names
-	sort.SliceStable(keys, func(i, j int) bool { return !strings.HasPrefix(keys[i], "C_") && strings.HasPrefix(keys[j], "C_") })
+	late := func(k string) bool { return strings.HasPrefix(k, "C_") || strings.HasPrefix(k, "G_") }
+	sort.SliceStable(keys, func(i, j int) bool { return !late(keys[i]) && late(keys[j]) })
 	for _, k := range keys {
 		if _, bound := g.Names.ToConcrete[k]; bound {
 			continue
@@ -165,6 +167,20 @@ func bindPlaceholders(g *Gen, docs map[string]*Node) {
 			}
 			g.usedConcrete[v] = true
 			g.Names.Bind(k, v)
+			continue
+		}
+		if k == "G_1" || k == "G_2" {
+			// G_1: the name full flattening generates for definitions/N_8/properties/N_9 (relation computed outside the repository);
+			// G_2: its case variant.  When the relation cannot be planted (clash with another name) the instance has no collision.
+			base := swag.ToJSONName(g.Names.ToConcrete["N_8"] + " " + g.Names.ToConcrete["N_9"])
+			if k == "G_2" {
+				base = swapCase(base)
+			}
+			if base == "" || g.usedConcrete[base] || reservedWords[base] {
+				base = g.concreteName(ncPlain)
+			}
+			g.usedConcrete[base] = true
+			g.Names.Bind(k, base)
 			continue
 		}
 		if strings.HasPrefix(k, "P_") {
